@@ -38,7 +38,10 @@ def scripted(script):
         np.random.rand, np.random.standard_normal, np.random.exponential = saved
 
 
-def make_target(cuqi, P, b, wall):
+WALLVAL = {"nan": float("nan"), "inf": float("inf"), "-inf": float("-inf")}
+
+
+def make_target(cuqi, P, b, wall, wall_kind="nan"):
     P = np.array(P, dtype=float); b = np.array(b, dtype=float)
     calls = {"n": 0}
 
@@ -46,7 +49,7 @@ def make_target(cuqi, P, b, wall):
         x = np.asarray(x, dtype=float).ravel()
         calls["n"] += 1
         if wall is not None and x[0] > wall:
-            return np.nan
+            return WALLVAL[wall_kind]
         return float(b @ x - 0.5 * x @ (P @ x))
 
     def grad(x):
@@ -67,16 +70,17 @@ def gen_case(rng, thorough):
     x = [rng.randint(-8, 8) / 4 for _ in range(d)]
     r = [rng.randint(-12, 12) / 8 for _ in range(d)]
     e = rng.randint(1, 40) / 16
-    wall = None
-    if rng.random() < 0.25:
+    wall = None; wall_kind = "nan"
+    if rng.random() < 0.3:
         wall = x[0] + rng.choice([0.25, 0.5, 1.0, 2.0])
+        wall_kind = rng.choice(["nan", "nan", "inf", "-inf"])
     nu = 3 * (2 ** (md + 1)) + 8
     us = [rng.randint(1, 1023) / 1024 for _ in range(nu)]
-    return dict(d=d, P=P, b=b, eps=eps, md=md, x=x, r=r, e=e, wall=wall, us=us)
+    return dict(d=d, P=P, b=b, eps=eps, md=md, x=x, r=r, e=e, wall=wall, wall_kind=wall_kind, us=us)
 
 
 def run_impl(cuqi, case, iface):
-    target, calls = make_target(cuqi, case["P"], case["b"], case["wall"])
+    target, calls = make_target(cuqi, case["P"], case["b"], case["wall"], case.get("wall_kind", "nan"))
     x0 = np.array(case["x"], dtype=float)
     sc = Script([case["r"]], [case["e"]], case["us"])
     out = {}
@@ -117,7 +121,7 @@ def run_impl(cuqi, case, iface):
 def line_of(case, guard):
     return "nuts %d %d %s %s %s %s %s %s %s %s" % (
         guard, case["md"], q(case["eps"]), qm(case["P"]), qv(case["b"]),
-        "none" if case["wall"] is None else q(case["wall"]), qv(case["x"]), qv(case["r"]), q(case["e"]), qv(case["us"]))
+        "none" if case["wall"] is None else q(case["wall"]) + ":" + case.get("wall_kind", "nan"), qv(case["x"]), qv(case["r"]), q(case["e"]), qv(case["us"]))
 
 
 def float_orbit(case, kmax):
@@ -125,7 +129,7 @@ def float_orbit(case, kmax):
     P = np.array(case["P"], float); b = np.array(case["b"], float); eps = case["eps"]
     def lp(x):
         if case["wall"] is not None and x[0] > case["wall"]:
-            return float("nan")
+            return WALLVAL[case.get("wall_kind", "nan")]
         return float(b @ x - 0.5 * x @ (P @ x))
     def g(x): return b - P @ x
     x0 = np.array(case["x"], float); r0 = np.array(case["r"], float)
@@ -144,7 +148,7 @@ def oracle_transition(ctx, key, case, iface, out):
     """implementation-only invariants of the property; returns True if one fails"""
     bad = False
     desc = {k: case[k] for k in ("d", "P", "b", "eps", "md", "x", "r", "e", "wall")}
-    desc["iface"] = iface; desc["us_head"] = case["us"][:8]
+    desc["iface"] = iface; desc["us_head"] = case["us"][:8]; desc["wall_kind"] = case.get("wall_kind", "nan")
     if out.get("raised"):
         ctx.fail(key + ":nan-selected", desc, "non-finite proposals are never selected", out["raised"], "NUTS moved to a point with NaN log-density")
         return True
@@ -159,8 +163,13 @@ def oracle_transition(ctx, key, case, iface, out):
         bad = True
     else:
         hk = orbit[hit[0]][2]
-        if not (hk == hk) or hk < logu - 1e-9:
-            ctx.fail(key + ":outside-slice", desc, f"H(selected) >= log u = {logu}", hk, "selected candidate is outside the slice / non-finite")
+        if not math.isfinite(hk):
+            if hit[0] != 0:   # staying at the (finite) start is always allowed
+                ctx.fail(key + ":nonfinite-selected", desc, "non-finite proposals are never selected", hk,
+                         "NUTS moved to a point whose log-density is not finite (" + str(hk) + ")")
+                bad = True
+        elif hk < logu - 1e-9:
+            ctx.fail(key + ":outside-slice", desc, f"H(selected) >= log u = {logu}", hk, "selected candidate is outside the slice")
             bad = True
     if iface == "exp":
         s = out["sampler"]
@@ -262,6 +271,47 @@ def oracle_uniform(ctx, cuqi, rng, ncfg):
 
 
 
+def oracle_divergence(ctx, cuqi, rng, want):
+    """directed: the first leaf of a depth-2 sub-tree is divergent (H' < log u - Delta_max): the tree must report s'=0 and
+    build nothing after it (property: the trajectory stops at the first divergence)"""
+    for iface in ("exp", "legacy"):
+        found = 0; tries = 0
+        while found < want and tries < 300:
+            tries += 1
+            case = gen_case(rng, False); case["wall"] = None
+            case["eps"] = rng.choice([8.0, 16.0, 32.0]); case["x"] = [v_ * 8 + 3 for v_ in case["x"]]
+            orb = float_orbit(case, 1)
+            v = rng.choice([-1, 1]); e = 0.5
+            if v not in orb:
+                continue
+            ham = orb[0][2]; logu = ham - e
+            if not (math.isfinite(orb[v][2]) and orb[v][2] < logu - 1000 - 1.0):
+                continue
+            found += 1
+            target, calls = make_target(cuqi, case["P"], case["b"], None)
+            x = np.array(case["x"], float); r = np.array(case["r"], float)
+            with quiet():
+                if iface == "exp":
+                    from cuqi.experimental.mcmc import NUTS
+                    s = NUTS(target, initial_point=x, max_depth=3, step_size=case["eps"])
+                else:
+                    from cuqi.sampler import NUTS
+                    s = NUTS(target, x0=x, max_depth=3, adapt_step_size=case["eps"])
+                s._num_tree_node = 0
+                g0 = np.asarray(target.gradient(x), float)
+                calls["n"] = 0
+                sc = Script([], [], [0.5] * 8)
+                with scripted(sc):
+                    res = s._BuildTree(x.copy(), r.copy(), g0.copy(), ham, logu, v, 2, case["eps"])
+            desc = {"iface": iface, "P": case["P"], "b": case["b"], "x": case["x"], "r": case["r"], "eps": case["eps"], "e": e, "v": v,
+                    "H_first_leaf_minus_logu": orb[v][2] - logu}
+            ctx.case("tree-divergent-first-leaf", desc)
+            key = f"NUTS:{iface}:tree:divergence-not-stopping"
+            if int(res[10]) != 0 or calls["n"] != 1:
+                ctx.fail(key, desc, "s'=0 and exactly 1 leaf evaluated", {"s_prime": int(res[10]), "leaves_evaluated": calls["n"]},
+                         "the trajectory does not stop at the first divergent leaf")
+
+
 def oracle_u0(ctx, cuqi, rng, want):
     """directed edge case: `rand()` returning exactly 0.0 (it is half-open [0,1)) in the in-tree Metropolis test while the
     second half has no in-slice leaf: the candidate must stay the in-slice one (property: every selected candidate lies in the slice)"""
@@ -327,12 +377,12 @@ def run(ctx):
         if iface == "legacy" and c["eps"] in (1.0,):
             c["eps"] = 0.5
         jobs.append((c, iface))
-    outs = ctx.lean.drive([line_of(c, 1 if iface == "exp" else 0) for c, iface in jobs])
+    outs = ctx.lean.drive([line_of(c, 1) for c, iface in jobs])   # both interfaces carry the finiteness guard (legacy since its repair)
     skipped = 0; hist = {"acc": 0, "rej": 0, "wall": 0, "depth": {}, "nodes_max": 0, "zero_u": 0}
     for (c, iface), mo in zip(jobs, outs):
-        desc = {k: c[k] for k in ("d", "eps", "md", "x", "r", "e", "wall")}; desc["iface"] = iface
+        desc = {k: c[k] for k in ("d", "eps", "md", "x", "r", "e", "wall", "wall_kind")}; desc["iface"] = iface
         key = f"NUTS:{iface}:step"
-        if mo in ("bad-op", "err-nan-start"):
+        if mo in ("bad-op", "err-nonfinite-start"):
             ctx.note(f"model refused {desc}: {mo}"); continue
         f = [t.strip() for t in mo.split("|")]
         m_acc, m_x, m_nodes, m_cons, m_j, m_n, m_diffs, m_margin, m_logd, m_grad = f
@@ -363,7 +413,13 @@ def run(ctx):
             if out["acc"] is not None and int(m_acc) != out["acc"]:
                 diff = ("accept flag", m_acc, out["acc"])
             else:
-                terms = [(float("nan") if t == "nan" else min(1.0, math.exp(min(0.0, float(Fraction(t)))) if float(Fraction(t)) <= 0 else 1.0)) for t in m_diffs.split(",") if t]
+                def term(t):
+                    if t == "nan": return float("nan")
+                    if t == "inf": return 1.0
+                    if t == "-inf": return 0.0
+                    d_ = float(Fraction(t))
+                    return 1.0 if d_ > 0 else math.exp(d_)
+                terms = [term(t) for t in m_diffs.split(",") if t]
                 if terms:
                     stat = sum(terms) / len(terms)
                     if not close(out["alpha"], stat, 1e-7):
@@ -383,3 +439,4 @@ def run(ctx):
     ctx.extra_cov["skipped_small_margin"] = skipped
     oracle_uniform(ctx, cuqi, rng, 6 if not thorough else 40)
     oracle_u0(ctx, cuqi, rng, 3 if not thorough else 20)
+    oracle_divergence(ctx, cuqi, rng, 3 if not thorough else 20)
